@@ -3,11 +3,12 @@
 
     [run c modes evs] is the peer after the event history [evs] (InitAllTables,
     periodicUpdate ticks, time passing, client queries, the environment
-    switching addresses between ok / refuse / garbage) for configuration [c].
+    switching addresses between ok / refuse / garbage, the core behind the
+    backend restarting) for configuration [c].
     [hist_ok c evs]: the stale timeout is not negative, time only moves
     forward and [c] is the repaired code ([c_fixed]); for the pinned code the
     first theorem is refuted ([C13_up_only_after_sync_refuted_for_pinned_code]). *)
-From LMD Require Import C13.Model C13.Proofs.
+From LMD Require Import C13.Model C13.Proofs C13.Proofs2.
 Open Scope Z_scope.
 
 (** up_only_after_sync: whenever a backend is reported up, it holds data, the
@@ -162,6 +163,109 @@ Example C13_example :
    (Up, false, false, false); (Up, false, true, false); (Up, false, false, false)].
 Proof. vm_compute. reflexivity. Qed.
 
+(** *** the core behind a reachable backend restarts ([ERestart]: program_start /
+    nagios_pid of the status row change, same or changed objects)
+
+    data_of_one_core: for every history (any configuration, pinned or repaired
+    code) the cached objects are the complete object set of ONE instance of the
+    core, never of a future one; if it is the running instance, they are the
+    object set it serves. *)
+Theorem C13_data_of_one_core :
+  forall c modes evs,
+    let s := snd (run c modes evs) in
+    (core_seen s <= env_core s)%nat /\ (1 <= env_core s)%nat /\
+    (core_seen s = env_core s -> dset_seen s = env_dset s) /\
+    (has_data s = true -> (1 <= o_core (observe s))%nat).
+Proof. exact thm_data_of_one_core. Qed.
+
+(** never_left_syncing: after every history - whatever state a full
+    synchronisation was entered from - the backend is not left in "syncing" and
+    does not show "reconnecting..."; isOnline, the by-group tables and data
+    queries agree about whether the backend is usable. *)
+Theorem C13_never_left_syncing :
+  forall c modes evs, hist_ok c evs ->
+    let s := snd (run c modes evs) in
+    status s <> Syncing /\ lasterr s <> EReconnecting /\
+    o_online (observe s) = negb (o_failed (observe s)) /\
+    o_bygroup (observe s) = o_failed (observe s).
+Proof. exact thm_never_left_syncing. Qed.
+
+(** successful_contact_ends_up: a successful contact of any kind, after any
+    history - a full synchronisation (InitAllTables, from whatever state,
+    up included), a delta update, and the update of one tick whose first query
+    is answered (a delta update, or the full re-synchronisation after the status
+    row showed another core instance or the cache had been dropped) - leaves
+    the backend up with an empty error, error count 0, last_online = now, and
+    with the complete object set of the running instance. *)
+Theorem C13_successful_contact_ends_up :
+  forall c modes evs, hist_ok c evs -> (0 < c_nsrc c)%nat ->
+    let s := snd (run c modes evs) in
+    let modes' := fst (run c modes evs) in
+    (snd (init_all c modes' s) = true ->
+       synced (fst (init_all c modes' s)) /\ current (fst (init_all c modes' s))) /\
+    (snd (update_delta c modes' s) = UOk ->
+       synced (fst (update_delta c modes' s)) /\ current (fst (update_delta c modes' s))) /\
+    (snd (do_query c modes' s) = true ->
+       synced (after_update c modes' (update_delta c modes' s)) /\
+       current (after_update c modes' (update_delta c modes' s))).
+Proof. exact thm_successful_contact. Qed.
+
+(** recovery_is_current: what is observed right after a due periodicUpdate
+    whose first query is answered (before any further update): sites shows up
+    and an empty last_error, isOnline, data queries and the by-group tables are
+    answered, from the objects of the instance that is running. *)
+Theorem C13_recovery_is_current :
+  forall c modes evs, hist_ok c evs -> (0 < c_nsrc c)%nat ->
+    let s := snd (run c modes evs) in
+    let modes' := fst (run c modes evs) in
+    let s1 := update_idle c s in
+    last_update s + (if idling s1 then c_idle_int c else c_upd c) <= now s ->
+    snd (do_query c modes' (set_last_update (now s) s1)) = true ->
+    let o := observe (periodic c modes' false s) in
+    o_status o = Up /\ o_err o = false /\ o_online o = true /\ o_failed o = false /\ o_bygroup o = false /\
+    o_core o = env_core s /\ o_dset o = env_dset s.
+Proof. exact thm_recovery_is_current. Qed.
+
+(** resync_after_core_restart: the core behind an UP backend restarts; the
+    cached objects are those of the old instance; right after the next due
+    periodicUpdate whose first query is answered - the full re-synchronisation
+    entered from up - the backend is up again (not syncing), the error is
+    empty, and everything is answered from the new complete object set. *)
+Theorem C13_resync_after_core_restart :
+  forall c modes evs ch, hist_ok c evs -> (0 < c_nsrc c)%nat ->
+    let s0 := snd (run c modes evs) in
+    let modes' := fst (run c modes evs) in
+    status s0 = Up ->
+    let s := restart ch s0 in
+    let s1 := update_idle c s in
+    last_update s + (if idling s1 then c_idle_int c else c_upd c) <= now s ->
+    snd (do_query c modes' (set_last_update (now s) s1)) = true ->
+    let o := observe (periodic c modes' false s) in
+    o_core (observe s) <> env_core s /\
+    o_status o = Up /\ o_err o = false /\ o_online o = true /\ o_failed o = false /\ o_bygroup o = false /\
+    o_core o = env_core s /\ o_dset o = env_dset s.
+Proof. exact thm_resync_after_core_restart. Qed.
+
+(** non-vacuity: restart of the core behind an up backend (old objects served
+    until the next due update, then up with the new ones), a restart noticed
+    while in warning, and a restart while the backend is unreachable *)
+Example C13_example_core_restart :
+  let c := mkCfg 10000 120000 3000 40000 1 0 true in
+  map (fun o => (o_status o, o_err o, o_online o, o_bygroup o, o_core o, o_dset o))
+      (trace c ([MOk], init_st)
+         [EInit; ERestart true; ETick false; EPass 3100; ETick false;
+          ESetMode 0 MRefuse; EPass 3100; ETick false; ERestart false; ESetMode 0 MOk; EPass 3100; ETick false;
+          ESetMode 0 MGarbage; ERestart true; EPass 11100; ETick false; ESetMode 0 MOk; EPass 3100; ETick false]) =
+  [(Up, false, true, false, 1, 1); (Up, false, true, false, 1, 1); (Up, false, true, false, 1, 1);
+   (Up, false, true, false, 1, 1); (Up, false, true, false, 2, 2);
+   (Up, false, true, false, 2, 2); (Up, false, true, false, 2, 2); (Warning, true, true, false, 2, 2);
+   (Warning, true, true, false, 2, 2); (Warning, true, true, false, 2, 2); (Warning, true, true, false, 2, 2);
+   (Up, false, true, false, 3, 2);
+   (Up, false, true, false, 3, 2); (Up, false, true, false, 3, 2); (Up, false, true, false, 3, 2);
+   (Down, true, false, true, 0, 0); (Down, true, false, true, 0, 0); (Down, true, false, true, 0, 0);
+   (Up, false, true, false, 4, 4)]%nat.
+Proof. vm_compute. reflexivity. Qed.
+
 Print Assumptions C13_up_only_after_sync.
 Print Assumptions C13_up_only_after_sync_refuted_for_pinned_code.
 Print Assumptions C13_warning_keeps_data.
@@ -177,3 +281,8 @@ Print Assumptions C13_first_query_schedules.
 Print Assumptions C13_source_rotation_step.
 Print Assumptions C13_source_rotation.
 Print Assumptions C13_invariant.
+Print Assumptions C13_data_of_one_core.
+Print Assumptions C13_never_left_syncing.
+Print Assumptions C13_successful_contact_ends_up.
+Print Assumptions C13_recovery_is_current.
+Print Assumptions C13_resync_after_core_restart.
